@@ -283,7 +283,7 @@ def select_grammars(tier, seed, wd, run):
     # the same small grammars under HOSTILE names: terminals and nonterminals called like the generator's own helpers (the
     # end-of-input kind `Eof` and its fallbacks, State, Node, Action, ...). C05 asks whether such modules compile; here they
     # are RUN: a helper that refers to its preferred name instead of the allocated one compiles and misbehaves
-    T_HOSTILE = ["$Eof", "$Eof2", "$State", "$Node", "$Error", "$Terminal", "$Quasiterminal", "$Accept", "$Shift", "$Reduce", "$Err", "$None", "$Some2"]
+    T_HOSTILE = ["$Eof", "$Eof2", "$State", "$Node", "$Error", "$Terminal", "$Quasiterminal", "$Accept", "$Shift", "$Reduce", "$Err2", "$Some2"]     # no prelude items (C05's precondition)
     N_HOSTILE = ["Node2", "State2", "Action", "RuleKind", "NonterminalKind", "QuasiterminalKind", "S", "Item", "Eof3", "Token", "Self_", "Ok2"]
     base = [G for o, G in pool if o in ("classics", "U2") and len(G["ts"]) <= 3 and len(G["nts"]) <= 4]
     for _ in range(24 if tier == "quick" else 200):
